@@ -30,12 +30,33 @@ type c13Case struct {
 }
 
 // kernel inputs: corner values (saturation, sign, rounding ties) and seeded random ones
-func kernelCoeffSets(rng *rand.Rand, n int) [][]int16 {
+// wide=false: values up to 2048 (inside the range in which 16-bit inverse transforms cannot overflow);
+// wide=true: the two classes beyond it (see the known finding on overflowing coefficients).
+func kernelCoeffSets(rng *rand.Rand, n int, wide bool) [][]int16 {
 	var out [][]int16
 	corner := []int16{0, 1, -1, 2, -2, 3, 4, -4, 7, 8, 127, 128, -128, 255, 256, -255, 1023, -1024, 2047, -2048}
 	for i := 0; i < n; i++ {
 		c := make([]int16, 32)
-		switch i % 4 {
+		cls := i % 4
+		if wide {
+			cls = 4 + i%2
+		}
+		switch cls {
+		case 4: // several coefficients of a few thousand: intermediate sums leave the 16-bit range
+			for k := range c {
+				if rng.Intn(3) == 0 {
+					c[k] = int16(rng.Intn(16384) - 8192)
+				}
+			}
+		case 5: // the whole 16-bit range, as a hostile stream can produce it (level x quantiser, truncated to 16 bits)
+			wv := []int16{32767, -32768, 16384, -16384, 8192, -8192, 4096, -4096, 12345, -23456, 30000, -30000}
+			for k := range c {
+				if rng.Intn(2) == 0 {
+					c[k] = wv[rng.Intn(len(wv))]
+				} else {
+					c[k] = int16(rng.Intn(65536) - 32768)
+				}
+			}
 		case 0:
 			for k := range c {
 				c[k] = corner[rng.Intn(len(corner))]
@@ -64,7 +85,8 @@ func c13Cases(seed int64, thorough bool) []c13Case {
 	rng := rand.New(rand.NewSource(seed))
 	var cs []c13Case
 	// ---- kernel level: exported dispatch entries on fixed inputs ----
-	coeffs := kernelCoeffSets(rng, 200)
+	coeffs := kernelCoeffSets(rng, 200, false)
+	wideCoeffs := kernelCoeffSets(rng, 120, true)
 	bg := make([]byte, 32*8)
 	rng.Read(bg)
 	cs = append(cs, c13Case{"kernel:Transform(two blocks)+TransformUV+TransformDC+AC3", func() string {
@@ -93,6 +115,41 @@ func c13Cases(seed int64, thorough bool) []c13Case {
 			dst = append([]byte(nil), bg...)
 			dsp.TransformDCUV(c4, dst)
 			h = h*1099511628211 ^ hashBytes(dst)
+		}
+		return fmt.Sprintf("%x", h)
+	}})
+	// the decoder-side inverse transforms on coefficients beyond the overflow-free range (a hostile stream produces
+	// them: level x quantiser truncated to 16 bits)
+	cs = append(cs, c13Case{"kernel-wide:Transform+TransformUV+TransformDC+AC3+DCUV+TransformWHT (coefficients beyond 2048)", func() string {
+		h := uint64(0)
+		for _, c := range wideCoeffs {
+			for _, two := range []bool{false, true} {
+				dst := append([]byte(nil), bg...)
+				dsp.Transform(append([]int16(nil), c...), dst, two)
+				h = h*1099511628211 ^ hashBytes(dst)
+			}
+			c4 := make([]int16, 64)
+			copy(c4, c)
+			copy(c4[32:], c)
+			dst := append([]byte(nil), bg...)
+			dsp.TransformUV(c4, dst)
+			h = h*1099511628211 ^ hashBytes(dst)
+			dst = append([]byte(nil), bg...)
+			dsp.TransformDC(append([]int16(nil), c...), dst)
+			h = h*1099511628211 ^ hashBytes(dst)
+			dst = append([]byte(nil), bg...)
+			c3 := make([]int16, 16)
+			c3[0], c3[1], c3[4] = c[0], c[1], c[4]
+			dsp.TransformAC3(c3, dst)
+			h = h*1099511628211 ^ hashBytes(dst)
+			dst = append([]byte(nil), bg...)
+			dsp.TransformDCUV(c4, dst)
+			h = h*1099511628211 ^ hashBytes(dst)
+			out := make([]int16, 256)
+			dsp.TransformWHT(append([]int16(nil), c[:16]...), out)
+			for _, v := range out {
+				h = h*31 + uint64(uint16(v))
+			}
 		}
 		return fmt.Sprintf("%x", h)
 	}})
@@ -222,6 +279,18 @@ func c13Cases(seed int64, thorough bool) []c13Case {
 			return digestImage(im)
 		}})
 	}
+	// syntactically valid frames whose coefficient levels are as large as the token syntax allows: level x quantiser
+	// exceeds 16 bits and the inverse transforms work on wrapped / overflowing values
+	for i := 0; i < 12; i++ {
+		g := genVP8Frame(rng, 2, 2, "hostile-coeffs")
+		cs = append(cs, c13Case{"Decode:hostile-coefficients VP8 " + g.Desc, func() string {
+			im, err := webp.Decode(bytes.NewReader(wrapVP8(g.Bytes)))
+			if err != nil {
+				return "error: " + err.Error()
+			}
+			return digestImage(im)
+		}})
+	}
 	for i := 0; i < 40; i++ {
 		g := genVP8L(rng, 20, 14)
 		cs = append(cs, c13Case{"Decode:generated VP8L " + g.Desc, func() string {
@@ -276,7 +345,7 @@ func c13Child(args []string) {
 	}
 	// recorded kernel calls (input, output) for trace validation against the format's arithmetic
 	rng := rand.New(rand.NewSource(seed + 99))
-	for i, c := range kernelCoeffSets(rng, 80) {
+	for i, c := range kernelCoeffSets(rng, 80, false) {
 		in := c[:16]
 		out := make([]int16, 256)
 		dsp.TransformWHT(append([]int16(nil), in...), out)
@@ -378,6 +447,11 @@ func checkC13(args []string) {
 		cls := strings.SplitN(c.name, " ", 2)[0]
 		if strings.HasPrefix(c.name, "Encode+Decode:") {
 			cls = "Encode+Decode:" + strings.Join(strings.Fields(strings.SplitN(c.name, " ", 2)[1])[:1], "")
+		}
+		if strings.HasPrefix(c.name, "kernel-wide:") {
+			cls = "wide-coefficients|kernels"
+		} else if strings.HasPrefix(c.name, "Decode:hostile-coefficients") {
+			cls = "wide-coefficients|Decode"
 		}
 		if a != s {
 			run.Violate("avx2-vs-sse2|"+cls, fmt.Sprintf("%s: AVX2 path gives %q, SSE2 path gives %q", c.name, a, s), c.name)
